@@ -2,6 +2,7 @@ import Splipy.Lemmas.C17Tables
 import Splipy.Lemmas.C17Compute
 import Splipy.Lemmas.C17Catalogue
 import Splipy.Lemmas.C17Twins
+import Splipy.Lemmas.C17Equiv
 
 /-!
 # Property C17 — the multipatch model identifies shared entities for any orientation and add order
@@ -128,14 +129,41 @@ theorem C17_compute_error_class (a b : Obj) (e : MErr) (h : Orientation.compute 
 theorem C17_compute_complete (a b : Obj) (hb : b.shape.length = b.pardim)
     (hp : a.pardim = b.pardim) (hd : a.dimension = b.dimension)
     (hex : ∃ o : Orientation, o.WF a.pardim ∧ Fits o a b) :
-    ∃ o', Orientation.compute a b = .ok o' := by
-  obtain ⟨o, ho, hf⟩ := hex
-  have hpre : PreOK a b := ⟨hp, hd, shape_perm_of_fits ho (by rw [hb, hp]) hf⟩
-  have hsome : ((Orientation.all a.pardim).find? (fitsB a b)).isSome := by
-    rw [List.find?_isSome]
-    exact ⟨o, (Orientation.mem_all _ _).2 ho, hf⟩
-  obtain ⟨o', ho'⟩ := Option.isSome_iff_exists.1 hsome
-  exact ⟨o', (compute_ok_iff a b o').2 ⟨hpre, ho'⟩⟩
+    ∃ o', Orientation.compute a b = .ok o' := compute_complete a b hb hp hd hex
+
+/-- Hence `a ≈ b :⇔ Orientation.compute(a, b)` does not raise is an equivalence relation:
+    reflexive (identity), symmetric (inverse orientation; `matches(…, reverse)` is symmetric),
+    transitive (product orientation, flags combine by xor) — on well-formed objects (`Obj.Good`:
+    as many array axes as bases, flat data of the right size, positive extents, non-constant knot
+    vectors).
+
+    PARTIAL: symmetry and transitivity are proved for objects of EQUAL rationality flag.  Missing:
+    the mixed case (one object rational, the other not), where `compute` normalises the weights by
+    a sum that depends on the pair; it needs the invariance of `Σ w` under axis permutation and
+    reversal of the net, which is not proved here. -/
+theorem C17_equiv_partial :
+    (∀ a : Obj, a.Good → Equiv a a) ∧
+    (∀ a b : Obj, a.Good → b.Good → a.rational = b.rational → Equiv a b → Equiv b a) ∧
+    (∀ a b c : Obj, a.Good → b.Good → c.Good → a.rational = b.rational → b.rational = c.rational →
+      Equiv a b → Equiv b c → Equiv a c) :=
+  ⟨fun _ => Equiv.refl', fun _ _ => Equiv.symm', fun _ _ _ => Equiv.trans'⟩
+
+/-- `Obj.Good` is satisfiable (a straight segment). -/
+example : ∃ x : Obj, x.Good :=
+  ⟨⟨[{ order := 2, knots := #[0, 0, 1, 1], periodic := -1 }], ⟨[2], #[[0, 0], [1, 0]]⟩, false⟩,
+   ⟨rfl, rfl, by decide, fun i hi => by
+      have : i = 0 := by simpa [Obj.pardim] using hi
+      subst this; simp [KnotsOK]⟩⟩
+
+/-- **Vertices are canonical** (catalogue of dimension 0, exact `VertexDict` keys, any state):
+    once a point has been looked up with `add=True`, every point object with the same key
+    (`controlpoints`, weight dropped when rational — exactly the code's key) resolves to the same
+    node, with or without `add`, and the vertex dictionary does not grow. -/
+theorem C17_vertex_canonical (m m1 : Model) (obj obj' : Obj) (id : ℕ) (o : Orientation)
+    (hkey : pointKey obj' = pointKey obj)
+    (h : m.lookupPoint obj true = .ok (m1, id, o)) (add : Bool) :
+    ∃ m2, m1.lookupPoint obj' add = .ok (m2, id, Orientation.identity 0) ∧ m2.verts = m1.verts :=
+  Model.lookupPoint_after_add m m1 obj obj' id o hkey h add
 
 /-- **Catalogue, one level, any state (partial).**  After `ObjectCatalogue._add(obj, lower)`
     in ANY model state, the tail of `lookup` (`Model.resolve`: candidate scan, twins policy)
